@@ -71,11 +71,34 @@ DOCUMENTED_PANICS = {
 }
 
 
-def documented_panic(fn_path, what):
+PANIC_FORMS = ("assert!", "assert_eq!", "assert_ne!", "panic!", "unreachable!")
+
+
+def documented_panic(fn_path, what, st=None):
+    """A panic the documentation of a public operation announces.  The out-of-bounds panics of the deletion routines are
+    recognised by what the path established — an element of the id list is not below the length it indexes — in
+    whatever form the check is written (`assert!`, `if .. { panic!(..) }`); any other panic there stays an obligation."""
     for (suffix, w), why in DOCUMENTED_PANICS.items():
-        if fn_path.endswith(suffix) and what == w:
+        if not fn_path.endswith(suffix):
+            continue
+        if what == w:
+            if "out of bounds" in why and st is not None and not _out_of_bounds_path(st):
+                continue
+            return why
+        if "out of bounds" in why and what in PANIC_FORMS and st is not None and _out_of_bounds_path(st):
             return why
     return None
+
+
+def _out_of_bounds_path(st):
+    for (k, p) in st.lin.facts:
+        if k != "ge":
+            continue
+        pos = [a for m, c in p.t.items() if c > 0 and len(m) == 1 for a in m if isinstance(a, tuple) and a and a[0] in ("elem", "get")]
+        neg = [a for m, c in p.t.items() if c < 0 and len(m) == 1 for a in m if isinstance(a, tuple) and a and a[0] == "len"]
+        if pos and neg:
+            return True
+    return False
 
 
 def documented_require(fn_path, what):
